@@ -18,7 +18,10 @@ LPROF = {"keys": ["p", "q", "r"], "strs": ["u", "w"], "nulls": False, "width": 2
 
 
 def gen_case(rng):
-    kind = rng.pick(["merge_map", "merge_map", "replace_map", "merge_str", "replace_str", "merge_list", "replace_list", "chain", "dangling"])
+    kind = rng.pick(["merge_map", "merge_map", "replace_map", "merge_str", "replace_str", "merge_list", "replace_list", "chain", "dangling",
+                     "nested_ref", "nested_ref"])
+    if kind == "nested_ref":
+        return gen_nested_ref(rng)
     cross = rng.chance(1, 3)
     tkeys = rng.pick([["tgt"], ["t", "sub"], ["a.b"], ["t", "x.y"], ["tpl", "inner"]])
     can_dot = all("." not in k for k in tkeys)
@@ -106,14 +109,56 @@ def gen_case(rng):
     return c
 
 
-def extra_oracle(ctx, c, a, b):
-    m = c[3] if len(c) > 3 else {}
-    if "inlined" not in m or not isinstance(a, list) or not a or a[-1][0] != "out":
-        return None
-    c2 = ["history", None, hist.stream_history(m["inlined"])]
-    im2, _ = hist.run_histories(ctx, [c2])
+def gen_nested_ref(rng):
+    """the target itself contains a reference host; both documents define the name it refers to, with different
+    values, so evaluating the target in the wrong document's context (or editing it in place) shows"""
+    inner_form = rng.pick(["merge_map", "replace_map", "merge_str", "list_merge"])
+    def tgt(v):
+        if inner_form == "merge_map":
+            return {"$merge": "p", "k": 1}
+        if inner_form == "replace_map":
+            return {"$replace": "p", "ignored": 1}
+        if inner_form == "merge_str":
+            return {"x": "$merge:p.v", "k": 1}
+        return {"l": [0, {"$merge": "pl"}], "k": 1}
+    A = {"name": "A", "p": {"v": "fromA"}, "pl": ["a1"]}
+    B = {"name": "B", "p": {"v": "fromB"}, "pl": ["b1"], "t": tgt("B")}
+    if rng.chance(1, 3):
+        del B["p"]
+        B.pop("pl")
+    outer = rng.pick(["replace_map", "merge_map", "replace_list", "replace_str_same"])
+    pat = {"name": "B"}
+    ref = rng.pick([{"$match": pat, "$path": "t"}, [pat, "t"], {"$match": pat, "$path": ["t"]}])
+    if outer == "replace_map":
+        A["out"] = {"$replace": ref}
+    elif outer == "merge_map":
+        A["out"] = {"$merge": ref, "own": 1}
+    elif outer == "replace_list":
+        A["out"] = [{"$replace": ref}]
+    else:
+        A["t"] = tgt("A")
+        A["out"] = {"$replace": "t"} if rng.chance(1, 2) else "$replace:t"
+    docs = rng.pick([[A, B], [B, A], [A, B, {"name": "C"}]])
+    c = ["history", None, hist.stream_history(docs)]
+    c.append({"kind": "nested_ref", "cross": True})
+    return c
+
+
+def extra_batch(ctx, cases, im, mo):
+    idx = [i for i, c in enumerate(cases) if len(c) > 3 and "inlined" in c[3] and isinstance(im[i], list) and im[i] and im[i][-1][0] == "out"]
+    c2s = [["history", None, hist.stream_history(cases[i][3]["inlined"])] for i in idx]
+    out = [None] * len(cases)
+    if not c2s:
+        return out
+    im2, _ = hist.run_histories(ctx, c2s)
+    for i, r in zip(idx, im2):
+        out[i] = compare_inlined(im[i], r)
+    return out
+
+
+def compare_inlined(a, r2):
     o1 = a[-1][1]
-    o2 = im2[0][-1][1] if isinstance(im2[0], list) and im2[0] and im2[0][-1][0] == "out" else None
+    o2 = r2[-1][1] if isinstance(r2, list) and r2 and r2[-1][0] == "out" else None
     if o2 is None:
         return None
     if o1[0] != o2[0]:
@@ -143,7 +188,7 @@ def dist_fn(dist, c, a, b):
 
 def run(ctx):
     n = 1500 if ctx.tier == "quick" else 30000
-    return histprop.run_history_property(ctx, "C10", gen_case, n, RULE, nontrivial, extra_oracle=extra_oracle, dist_fn=dist_fn)
+    return histprop.run_history_property(ctx, "C10", gen_case, n, RULE, nontrivial, extra_batch=extra_batch, dist_fn=dist_fn)
 
 
 def replay(ctx, payload):
